@@ -89,15 +89,41 @@ fn canon_json(v: &J) -> String {
                 let x = match o["value"].as_str().unwrap_or("") { "NaN" => f64::NAN, "Infinity" => f64::INFINITY, "-Infinity" => f64::NEG_INFINITY, _ => 0.0 };
                 format!("f{:016x}", x.to_bits())
             }
-            Some("node") => format!("node{}", o["id"]),
-            Some("node_id") => format!("node{}", o["value"]),
-            Some("relationship") => format!("rel{}:{}:{}", o["src"], o["rel_type"].as_str().unwrap_or("?"), o["dst"]),
+            Some("node") if o.contains_key("labels") => {
+                let mut labels: Vec<String> = o["labels"].as_array().map(|a| a.iter().map(|x| x.as_str().unwrap_or("?").to_string()).collect()).unwrap_or_default();
+                labels.sort();
+                format!("node{}|{}|{}", o["id"], labels.join(","), canon_json(&o["properties"]))
+            }
+            Some("node_id") => format!("nodeid{}", o["value"]),
+            Some("relationship") if o.contains_key("rel_type") =>
+                format!("rel{}:{}:{}|{}", o["src"], o["rel_type"].as_str().unwrap_or("?"), o["dst"], canon_json(&o["properties"])),
+            Some("edge_key") => format!("edgekey{}:{}:{}", o["src"], o["rel"], o["dst"]),
+            Some("path") if o.contains_key("relationships") => format!("path{}{}", canon_json(&o["nodes"]), canon_json(&o["relationships"])),
             _ => format!("{{{}}}", o.iter().map(|(k, v)| format!("{k:?}:{}", canon_json(v))).collect::<Vec<_>>().join(",")),
         },
     }
 }
 
-/// ... and of a tagged value from the Rust API, in the same notation
+/// ... of a (reified) value from the Rust API in the same notation: entities with labels / type and properties,
+/// unreified references under names of their own ...
+fn canon_value(v: &nervusdb_query::Value) -> String {
+    use nervusdb_query::Value;
+    let props = |m: &std::collections::BTreeMap<String, Value>| format!("{{{}}}", m.iter().map(|(k, v)| format!("{k:?}:{}", canon_value(v))).collect::<Vec<_>>().join(","));
+    match v {
+        Value::List(l) => format!("[{}]", l.iter().map(canon_value).collect::<Vec<_>>().join(",")),
+        Value::Map(m) => props(m),
+        Value::Node(n) => { let mut l = n.labels.clone(); l.sort(); format!("node{}|{}|{}", n.id, l.join(","), props(&n.properties)) }
+        Value::NodeId(id) => format!("nodeid{id}"),
+        Value::Relationship(r) => format!("rel{}:{}:{}|{}", r.key.src, r.rel_type, r.key.dst, props(&r.properties)),
+        Value::EdgeKey(k) => format!("edgekey{}:{}:{}", k.src, k.rel, k.dst),
+        Value::ReifiedPath(p) => format!("path[{}][{}]",
+            p.nodes.iter().map(|n| canon_value(&Value::Node(n.clone()))).collect::<Vec<_>>().join(","),
+            p.relationships.iter().map(|r| canon_value(&Value::Relationship(r.clone()))).collect::<Vec<_>>().join(",")),
+        scalar => canon_tv(&crate::cypher::tv(scalar).0),
+    }
+}
+
+/// ... and of a tagged value from the Rust API
 fn canon_tv(t: &J) -> String {
     let a = t.as_array().unwrap();
     match a[0].as_str().unwrap_or("") {
@@ -234,11 +260,21 @@ pub fn run_sessions(sessions: &[J], out: &mut dyn Write, scratch: &Path) -> J {
                         }
                         let o = crate::cypher::run_read(t, c["query"].as_str().unwrap_or(""), &p);
                         let mut rres = o.to_json();
-                        let rs: Vec<String> = o.rows.iter().map(|row| {
-                            let mut cols: Vec<String> = o.cols.iter().zip(row.iter()).map(|(k, v)| format!("{k}={}", canon_tv(&v.0))).collect();
-                            cols.sort();
-                            cols.join(";")
-                        }).collect();
+                        // the documented Rust path: execute_streaming, every row reified against the snapshot
+                        let rs: Vec<String> = std::panic::catch_unwind(std::panic::AssertUnwindSafe(|| -> Vec<String> {
+                            let mut out = Vec::new();
+                            if let Ok(q) = nervusdb_query::prepare(c["query"].as_str().unwrap_or("")) {
+                                let snap = t.snapshot();
+                                for r in q.execute_streaming(&snap, &p) {
+                                    let Ok(row) = r else { break };
+                                    let Ok(row) = row.reify(&snap) else { out.push("reify-failed".into()); continue };
+                                    let mut cols: Vec<String> = row.columns().iter().map(|(k, v)| format!("{k}={}", canon_value(v))).collect();
+                                    cols.sort();
+                                    out.push(cols.join(";"));
+                                }
+                            }
+                            out
+                        })).unwrap_or_else(|_| vec!["panic".into()]);
                         rres["rowstrs"] = json!(rs);
                         ev["res"] = rres;
                     } else {
